@@ -183,6 +183,15 @@ def rule_data_kernels(ctx: Ctx, rule: str = "parser-kernel-law") -> None:
         r = ta.call(fi, [ListV([mk_at(two_y, num(1))]), mk_at(ctl(1, {y: 2}), num(1))], {})
         if len(r.items) != 2:
             return "|2y| and |2y + 1| are merged although they differ"
+        # same variables, one coefficient of opposite sign: different terms (an identity test on the printed form must
+        # print the sign)
+        for a_, b_ in ((ctl(0, {x: 1, y: 1}), ctl(0, {x: -1, y: 1})), (ctl(0, {x: 1, y: 2}), ctl(0, {x: 1, y: -2})), (ctl(2, {x: 1}), ctl(-2, {x: 1}))):
+            r = ta.call(fi, [ListV([mk_at(a_, num(1))]), mk_at(b_, num(1))], {})
+            if len(r.items) != 2:
+                return "two absolute terms that differ in a sign (e.g. |x + y| and |-x + y|) are merged"
+        r = ta.call(fi, [ListV([mk_at(ctl(0, {x: 1, y: 1}), num(1))]), mk_at(ctl(0, {x: 1, y: 1}), num(2))], {})
+        if len(r.items) != 1:
+            return "|x + y| + 2|x + y| is not merged"
         return None
 
     _run(ctx, rule, "data._combine_or_append", "absolute terms without a variable inside the bars (|3|, |x - x|) combine like any other, without an error", k_combine_degenerate)
